@@ -482,7 +482,7 @@ func (t *Topic) infoSubsOffline(from types.Uid, what string, seq int, skipSid st
 
 	for uid, pud := range t.perUser {
 		mode := pud.modeGiven & pud.modeWant
-		if pud.deleted || !mode.IsPresencer() || !mode.IsReader() {
+		if pud.deleted || !mode.IsJoiner() || !mode.IsPresencer() || !mode.IsReader() {
 			continue
 		}
 
@@ -713,7 +713,8 @@ func presOfflineFilter(mode types.AccessMode, what string, pf *presFilters) bool
 	if what == "upd" && mode.IsJoiner() {
 		return true
 	}
-	return mode.IsPresencer() &&
+	// Banned users (no 'J') get "acs" and "gone" only.
+	return mode.IsPresencer() && mode.IsJoiner() &&
 		(pf == nil ||
 			((pf.filterIn == types.ModeNone || mode&pf.filterIn != 0) &&
 				(pf.filterOut == types.ModeNone || mode&pf.filterOut == 0)))
